@@ -11,6 +11,7 @@ RULE = ("structured transactions (0..4 inputs, 0..3 outputs, scripts from a gram
         "guards (JSON 61/62, CBOR 125/126/127, single input 126/127/128) with empty / opcode / push innermost bodies, u32/u64 extremes; "
         "value-dependent stream: one-byte pushes of every value 0x00..0xff (direct, PUSHDATA1, inside conditionals, as Coinbase bits), two-byte pushes with all-digit hex, previous-output ids with leading/trailing zero bytes, empty vs missing optional fields, PUSHDATA1/2 at the top of their length fields; at the data-model level every look-alike string (ASM short forms 0..17, decimals, OP_FALSE/OP_TRUE, other spellings and lower-case / prefix-less forms of every opcode name) in every position where a name or a hex text is read; "
         "audit stream: every ScriptBit variant (all push forms, all four conditional codes, with / without else) in every position (script_sig, extended locking script, output script, pass, fail) through JSON and CBOR, whole transaction and lone TxIn; version / vout / sequence / locktime each separately at 0, 2^31-1, 2^31, 2^32-1; satoshis None vs Some(0) vs top-bit values; TxOut JSON; transactions whose sighash cache was filled before serialising (no leak, clone keeps it, decoded value starts empty - hook verif_hash_cache), and the same values rebuilt through new/set_*/add_inputs/add_input/add_outputs/add_output/set_input/set_output; to/from_compact_hex against the byte forms; "
+        "state stream (tx.steps): one Transaction object observed through JSON and CBOR, mutated by every setter (set_version / set_nlocktime and the clones they return, set_sequence / set_vout / set_satoshis / set_locking_script / set_unlocking_script / set_prev_tx_id through set_input, add / prepend / insert input, add / prepend / insert / set output), observed again - every order, two setters in both orders, a setter repeated or undone, with a warm sighash cache, on clone(), after a JSON / CBOR round trip, crossing the coinbase and nesting classes by a setter; expected values computed from the final fields only; "
         "scripts the byte parser cannot produce (Push of 0 and of more than 75 bytes, PushData with any opcode, Coinbase bits anywhere) "
         "through bits.*_roundtrip; malformed documents at the data-model level through tx.de_json / tx.de_cbor / txin.de_cbor: every "
         "field dropped / duplicated / retyped / out of range, unknown fields (deep, long-named), structs as arrays, every alternative "
@@ -294,21 +295,21 @@ def tree_cases(tier):
         T(base_tx(bits=s)); T(base_tx(outs=[with_val(bo, "script_pub_key", s)])); T(base_tx(ins=[with_val(bi, "unlocking_script", s)]))
     # the untagged ScriptBit: every spelling
     for b in BIT_FORMS:
-        T(base_tx(bits=[b])); T(base_tx(bits=["OP_1", b, "00"]))
+        T(base_tx(bits=[b])); T(base_tx(bits=["OP_1", b, "00"]), both=thorough)
         T(base_tx(bits=[M([("code", "OP_IF"), ("pass", [b]), ("fail", [b])])]))
         T(base_in(bits=[b]), txin=True)
     # strings that look like something else, in every position where an opcode name or a hex text is read
     for b in LOOKALIKES:
         T(base_tx(bits=[b])); T(base_in(bits=[b]), txin=True)
         T(base_tx(bits=[[b, "aa"]])); T(base_tx(bits=[["OP_PUSHDATA1", b]]))
-        T(base_tx(bits=[M([("code", b), ("pass", []), ("fail", None)])])); T(base_tx(bits=[M([("code", "OP_IF"), ("pass", [b]), ("fail", [b])])]))
+        T(base_tx(bits=[M([("code", b), ("pass", []), ("fail", None)])])); T(base_tx(bits=[M([("code", "OP_IF"), ("pass", [b]), ("fail", [b])])]), both=thorough)
         T(base_tx(bits=[M([(b, None)])]), both=True)
         T(base_tx(outs=[with_val(base_out(), "script_pub_key", [b])]), both=thorough)
         T(base_tx(ins=[with_val(base_in(), "unlocking_script", [b])]), both=thorough)
         T(base_tx(ins=[with_val(base_in(), "prev_tx_id", b)]), both=thorough)
     names = opcode_names()
     for nm in names:
-        T(base_tx(bits=[nm.lower()])); T(base_tx(bits=[nm[3:]]), both=thorough)
+        T(base_tx(bits=[nm.lower()]), both=thorough); T(base_tx(bits=[nm[3:]]), both=thorough)
     T(base_tx(bits=names[:60])); T(base_tx(bits=names[60:])); T(base_in(bits=names[:60]), txin=True)
     T(base_tx(bits=[[nm, ""] for nm in names[:40]]))
     # hex text of a push on both sides of ciborium's scratch buffer
@@ -469,6 +470,59 @@ def audit_cases(A, both, tier, rng):
         A("tx.cached_roundtrip", w, e); A("tx.built_json_roundtrip", w, e); A("tx.built_cbor_roundtrip", w, e)
 
 
+
+def step_cases(A, tier, rng):
+    """state and call history: ONE object observed, mutated through every setter, observed again (also on the clone the
+    builder-style setters return, on clone(), after a JSON / CBOR round trip, with a warm sighash cache)"""
+    p2pkh = "76a914" + "22" * 20 + "88ac"
+    base = tx_wire(1, [("l:31:32", 0, "51", 0xffffffff), ("l:32:32", 1, "", 0xfffffffe)], [(546, p2pkh), (0, "6a0568656c6c6f")], 0)
+    ext0, ext1 = "-", "1000." + p2pkh + ",n.n"
+    empty = tx_wire(2, [], [], 0)
+    muts = ["v7", "V7", "l9", "L9", "v4294967295", "l2147483648", "iq0:5", "io0:4294967295", "ia0:0", "ia0:18446744073709551615", "ia1:9007199254740993",
+            "il0:51", "il0:", "il1:4c00", "iu0:0110", "iu1:6351675268", "ip0:r:00:32", "ip0:0102", "ip1:", "ai", "pi", "ni0", "ni1", "ni2",
+            "ao0", "ao18446744073709551615", "po5", "no0:5", "no1:5", "no2:5", "so0:7", "so1:9223372036854775808"]
+    for w, e in ((base, ext0), (base, ext1)):
+        for m in muts:
+            # observe -> mutate -> observe, both formats, every order; with a warm cache; on a clone; after a round trip
+            A("tx.steps", w, e, "j,c,%s,j,c" % m)
+            A("tx.steps", w, e, "h,j,%s,c,h,j" % m)
+            A("tx.steps", w, e, "c,k,%s,j,r,c" % m)
+            A("tx.steps", w, e, "h,R,%s,c,j" % m)
+    for m in ("v7", "V7", "l9", "L9", "ai", "pi", "ni0", "ao5", "po5", "no0:5"):
+        A("tx.steps", empty, "-", "j,c,%s,j,c,h,r,j" % m)
+    # two mutations in both orders, the same setter twice, a setter undone
+    pairs = [("v7", "l9"), ("ia0:5", "il0:51"), ("ia0:5", "ia0:0"), ("il0:51", "il0:"), ("iq0:1", "iq1:2"), ("ai", "pi"), ("ao1", "po2"),
+             ("ni1", "iq1:3"), ("no1:4", "so1:6"), ("iu0:0110", "ip0:r:00:32"), ("ip0:r:00:32", "io0:4294967295"), ("v7", "v1"), ("V7", "L9")]
+    for a, b2 in pairs:
+        for w, e in ((base, ext0), (base, ext1)):
+            A("tx.steps", w, e, "j,%s,c,%s,j,c" % (a, b2)); A("tx.steps", w, e, "c,%s,h,j,%s,c,j" % (b2, a))
+    # turning an ordinary input into a coinbase outpoint and back by setters (the script bits stay what they were)
+    A("tx.steps", base, "-", "ip0:r:00:32,io0:4294967295,j,c,r,j"); A("tx.steps", GENESIS, "-", "j,iu0:0151,j,c,io0:0,j")
+    A("tx.steps", GENESIS, "-", "c,ip0:r:11:32,j"); A("tx.steps", GENESIS, "-", "h,v2,j,c")
+    # nesting crossing the guard by a setter, and back
+    A("tx.steps", base, "-", "j,iu0:r:63:62+r:68:62,j,c,iu0:r:63:61+r:68:61,j,c"); A("tx.steps", base, "-", "il0:r:63:127+r:68:127,c,j,il0:51,c,j")
+    # random walks
+    for _ in range(25 if tier == "quick" else 600):
+        w, e, nin = rand_tx(rng, coinbase=(rng.random() < 0.15))
+        steps = []
+        for _k in range(rng.randrange(3, 9)):
+            r = rng.random()
+            if r < 0.4:
+                steps.append(rng.choice(["j", "c"]))
+            elif r < 0.55:
+                steps.append(rng.choice(["h", "k", "r", "R"]))
+            else:
+                m = rng.choice(["v%d" % r32(rng), "V%d" % r32(rng), "l%d" % r32(rng), "L%d" % r32(rng), "ai", "pi", "ao%d" % rval(rng), "po%d" % rval(rng)])
+                if nin and rng.random() < 0.6:
+                    i = rng.randrange(nin)
+                    m = rng.choice(["iq%d:%d" % (i, r32(rng)), "io%d:%d" % (i, r32(rng)), "ia%d:%d" % (i, rval(rng)),
+                                    "il%d:%s" % (i, good_script(rng).hex()), "iu%d:%s" % (i, good_script(rng).hex()),
+                                    "ip%d:l:%d:%d" % (i, rng.randrange(1000), rng.choice([0, 1, 31, 32, 33]))])
+                steps.append(m)
+        steps.append(rng.choice(["j", "c"])); steps.append(rng.choice(["j", "c"]))
+        A("tx.steps", w, e, ",".join(steps))
+
+
 def generate(rng, tier):
     quick = tier == "quick"
     cases = []
@@ -555,6 +609,8 @@ def generate(rng, tier):
                 A("tx.cbor_trailing", w, e, x)
     # ---- audit: entry points, carried state, field extremes, variant x position
     audit_cases(A, both, tier, rng)
+    # ---- state and call history on one object
+    step_cases(A, tier, rng)
     # invalid wire bytes / invalid locking script bytes: the case is refused before any encoding
     both("00", "-"); both(plain, "1.ff"); both(plain, "1.4c05")
     # ---- scripts the parser cannot produce
